@@ -389,6 +389,25 @@ func propSignOpts(t *rapid.T) {
 			t.Fatalf("toggling SelfVerify changed the output: %x vs %x (%v)", sig2, sig, err)
 		}
 	}
+	// the caller still holds the first signature while it goes on signing other things (another digest,
+	// every encoding): the bytes it was handed are its own and must not change under it
+	held := append([]byte(nil), sig...)
+	other := append([]byte(nil), digest...)
+	other[0] ^= 0x80
+	for _, e2 := range []secec.SignatureEncoding{secec.EncodingCompactRecoverable, secec.EncodingCompact, secec.EncodingASN1} {
+		o3 := opts // the same (admissible) options, with each encoding in turn where the options carry one
+		if eo != nil {
+			c := *eo
+			c.Encoding = e2
+			o3 = &c
+		}
+		if _, err := key.Sign(again(), other, o3); err != nil {
+			t.Fatalf("a later Sign on the same key failed: %v", err)
+		}
+		if !bytes.Equal(sig, held) {
+			t.Fatalf("a signature returned earlier (%x) was overwritten by a later Sign call with encoding %d: now %x", held, e2, sig)
+		}
+	}
 }
 
 func eoForVerify(eo *secec.ECDSAOptions, enc secec.SignatureEncoding) *secec.ECDSAOptions {
